@@ -134,6 +134,12 @@ for _pid in ('C23', 'C24'):
     PROPS[_pid]['thorough'] = [('content:general', 40000), ('cursor:general', 150000)]
     PROPS[_pid]['rule'] += '; additionally every finished S-cursor query (store faults, cancellation, Close, stalled consumers, blocks of up to 300 rows)'
 
+# C03 is also checked on every row S-cursor delivers: concurrent scans with slow and stalled consumers under
+# store faults (failed, short and silently corrupted reads), where pooled scan buffers are recycled on error paths.
+PROPS['C03']['quick'] = [('content:general', 1200), ('cursor:general', 2000)]
+PROPS['C03']['thorough'] = [('content:general', 40000), ('cursor:general', 150000)]
+PROPS['C03']['rule'] += '; additionally every row delivered by an S-cursor query is compared with the JSON round trip of the ingested row at delivery and again at the end of the run (store faults incl. failed/short/corrupted reads, slow and stalled consumers)'
+
 MERGE_ASSUME = ['one P, cooperative scheduling at synchronisation operations', 'SimDisk/SimMeta follow the DataStore/MetaStore contracts (atomic Update; a failed call has no effect; late-err Close publishes then reports failure)']
 PROPS['C11'] = {'level': 'exploration', 'quick': [('merge:content', 1500)], 'thorough': [('merge:content', 60000)],
     'rule': 'seeded S-merge runs: populations of small files flushed under 1-3 differing engine configs (compression, fp rate, partition function, minmax key sets, limits), then 1-3 Merge rounds under a '
